@@ -310,3 +310,14 @@ func (g *v6gen) opt(t *rapid.T, code uint16, nest int) refv6.Opt {
 	}
 	return o
 }
+
+// V6Opt generates a single option of the given code (used to drive ParseOption directly).
+func V6Opt(cfg V6Cfg, code uint16) *rapid.Generator[refv6.Opt] {
+	return rapid.Custom(func(t *rapid.T) refv6.Opt {
+		g := &v6gen{cfg: cfg, budget: 12}
+		if cfg.MaxOpts == 0 {
+			g.cfg.MaxOpts = 3
+		}
+		return g.opt(t, code, 1)
+	})
+}
